@@ -27,6 +27,15 @@ type c19Leaf2 struct {
 	K string
 }
 
+// defined (named) types of supported kinds: the statement speaks of kinds, the
+// implementation refuses them with an error - either is accepted, a panic is not
+type c19Dur int64
+type c19Celsius float64
+type c19Label string
+type c19Flag bool
+type c19Labels []string
+type c19Byte uint8
+
 func c19FieldTypes() []reflect.Type {
 	var s string
 	var i int
@@ -41,6 +50,9 @@ func c19FieldTypes() []reflect.Type {
 		// unsupported kinds
 		reflect.TypeOf([][]int{}), reflect.TypeOf(map[string]string{}), reflect.TypeOf([2]int{}), reflect.TypeOf(make(chan int)), reflect.TypeOf(func() {}), reflect.TypeOf((*interface{})(nil)).Elem(),
 		reflect.TypeOf([]map[string]int{}), reflect.TypeOf([][]string{}), reflect.TypeOf(complex(0, 0)), reflect.TypeOf(uintptr(0)),
+		// defined types
+		reflect.TypeOf(c19Dur(0)), reflect.TypeOf(c19Celsius(0)), reflect.TypeOf(c19Label("")), reflect.TypeOf(c19Flag(false)), reflect.TypeOf(c19Byte(0)), reflect.TypeOf(c19Labels{}),
+		reflect.TypeOf([]c19Label{}), reflect.TypeOf([]c19Dur{}), reflect.PointerTo(reflect.TypeOf(c19Celsius(0))), reflect.SliceOf(reflect.PointerTo(reflect.TypeOf(c19Label("")))),
 	}
 	return ts
 }
@@ -82,6 +94,9 @@ type c19Env struct {
 func (e *c19Env) expected(t reflect.Type, res xsel.Result, depth int) (reflect.Value, int) {
 	if depth > 6 {
 		return reflect.Value{}, stLenient
+	}
+	if t.PkgPath() != "" && t.Kind() != reflect.Struct {
+		return reflect.Value{}, stLenient // defined type of a basic or slice kind
 	}
 	switch t.Kind() {
 	case reflect.Pointer:
@@ -518,7 +533,7 @@ func C19(c *run.Check) {
 	c.Sample(map[string]string{"target": "struct{F uint8 `xsel:\"-1.5\"`}", "doc": docs[2].String()})
 	c.Set("field_types", len(ftypes))
 	c.Set("tags", len(tags))
-	c.Rule = fmt.Sprintf("target types built with reflect.StructOf/SliceOf/PointerTo: %d field/element types (string, bool, every int/uint width, floats, slices of scalars/structs/pointers, nested structs, pointer chains, and the unsupported kinds map/array/chan/func/interface/[][]T/complex/uintptr) x %d tag expressions (node-sets of 0/1/many nodes, numbers incl. NaN/Inf/negative/out of range, strings, booleans, variables, unbound variable, syntax error) x every element node of 3 documents, as *T and **T; slice targets over node-sets of 0-3 nodes in both orders; 36 ill-shaped targets/results (nil, non-pointers, nil pointers, unexported tagged fields ...). Expected values come from separate Exec calls and the statement's conversion table (numeric fields only compared when the double is representable in the field type); never a panic; untagged fields untouched. non-trivial = distinct (type, tag, filled value)", len(ftypes), len(tags))
+	c.Rule = fmt.Sprintf("target types built with reflect.StructOf/SliceOf/PointerTo: %d field/element types (string, bool, every int/uint width, floats, slices of scalars/structs/pointers, nested structs, pointer chains, the unsupported kinds map/array/chan/func/interface/[][]T/complex/uintptr, and defined types of supported kinds - for those an error or the converted value is accepted, a panic is not) x %d tag expressions (node-sets of 0/1/many nodes, numbers incl. NaN/Inf/negative/out of range, strings, booleans, variables, unbound variable, syntax error) x every element node of 3 documents, as *T and **T; slice targets over node-sets of 0-3 nodes in both orders; 36 ill-shaped targets/results (nil, non-pointers, nil pointers, unexported tagged fields ...). Expected values come from separate Exec calls and the statement's conversion table (numeric fields only compared when the double is representable in the field type); never a panic; untagged fields untouched. non-trivial = distinct (type, tag, filled value)", len(ftypes), len(tags))
 	c.Assume("Exec itself is verified by C01-C07; Go leaves float->int conversion of unrepresentable values implementation-defined, those are only required not to panic")
 }
 
